@@ -132,6 +132,20 @@ def expr_function(a):
     return _FUNCS[key]
 
 
+def _retype(v):
+    if v is True:
+        return 1.0
+    if v is False:
+        return 0.0
+    if isinstance(v, float) and v == 1.0:
+        return True
+    if isinstance(v, float) and v == 0.0:
+        return False
+    if isinstance(v, float) and v == v and abs(v) < 1e6 and v == int(v):
+        return int(v)
+    return v
+
+
 class Rec:
     def __init__(self, d):
         self.__dict__.update(d)
@@ -163,7 +177,7 @@ class C17(Scenario):
                    "expressions use + - * /const comparisons and/or/not over fields whose names do not collide with math.*",
                    "bare scalars are only used with single-variable expressions"]
     expected_faults = ["memo_interleave"]
-    expected_probes = ["memo_repeat_identical", "memo_repeat_equal_copy", "memo_change", "memo_array_batch", "string_first_scalar",
+    expected_probes = ["memo_repeat_identical", "memo_repeat_equal_copy", "memo_change", "memo_array_batch", "memo_equal_value_other_type", "string_first_scalar",
                        "string_first_object", "string_first_dict", "wrapper_orders"]
 
     # ------------------------------------------------------------------ generation
@@ -181,9 +195,10 @@ class C17(Scenario):
                 kids = [{"p": "Sum", "q": q(0, "x")}, {"p": "Bin", "num": 4, "low": -2.0, "high": 2.0, "q": q(0, "x"), "value": {"p": "Average", "q": q(1, "y")},
                                                        "underflow": None, "overflow": None, "nanflow": None},
                         {"p": "Select", "q": q(2, "b"), "cut": {"p": "Deviate", "q": q(0, "x")}}, {"p": "Minimize", "q": q(1, "y")},
-                        {"p": "Categorize", "q": q(3, "s"), "value": {"p": "Sum", "q": q(1, "y")}}]
+                        {"p": "Categorize", "q": q(3, "s"), "value": {"p": "Sum", "q": q(1, "y")}},
+                        {"p": "Categorize", "q": q(4, "c"), "value": None}, {"p": "Bag", "q": q(0, "x"), "range": "N"}]
                 t.shuffle(kids)
-                return {"p": "Branch", "values": kids[: t.randint(2, 5)]}
+                return {"p": "Branch", "values": kids[: t.randint(2, 6)]}
 
             specs = [tree(0), tree(1)]
             crit = specmod.critical_values(specs[0])
@@ -193,7 +208,7 @@ class C17(Scenario):
             for si in range(s.randint(4, 30)):
                 tr = s.randrange(2)
                 if s.chance(0.7):
-                    mode = s.pick(["same", "copy", "new", "new"])
+                    mode = s.pick(["same", "copy", "retype", "new", "new"])
                     rec = s.randrange(len(recs)) if (mode == "new" or last is None or last[0] != "row") else last[1]
                     steps.append({"op": "fill", "tree": tr, "rec": rec, "how": mode if (last and last[0] == "row") else "new", "w": s.pick([1.0, 1.0, 0.5, 2.0]),
                                   "actor": "T%d" % tr})
@@ -346,13 +361,20 @@ class C17(Scenario):
                     datum = dict(base)
                     w.bump("probe_memo_repeat_equal_copy")
                     rep += 1
+                elif how == "retype" and last_row is not None and last_row[0] == st["rec"]:
+                    # an equal-valued record whose fields have another type (True / 1.0 / 1): == says equal, the
+                    # function may not (Categorize accepts a bool but not the number 1.0)
+                    datum = {k: _retype(v) for k, v in base.items()}
+                    base = dict(datum)
+                    w.bump("probe_memo_equal_value_other_type")
+                    chg += 1
                 else:
                     datum = dict(base)
                     w.bump("probe_memo_change")
                     chg += 1
                 last_row = (st["rec"], datum)
                 o1 = call(trees[tr].fill, datum, st["w"])
-                o2 = call(twins[tr].fill, dict(base), st["w"])
+                o2 = call(twins[tr].fill, dict(datum), st["w"])  # the twin always gets a fresh, equal record
             else:
                 if any(r >= len(w.records) for r in st["rows"]):
                     continue
@@ -378,7 +400,11 @@ class C17(Scenario):
                 raise self.violation("CachedFcn", st["op"], "exception:%s" % type(bad.exc).__name__,
                                      "cached system %s, plain twin %s" % (o1.describe(), o2.describe()), si)
             if not o1.ok:
-                raise self.violation(exc_site(o1.exc)[0], st["op"], "exception:%s" % type(o1.exc).__name__, "both systems raised %s" % o1.describe(), si)
+                # both raise alike (e.g. Categorize given the number 1.0): legitimate; the states must still agree
+                w.bump("probe_both_raise")
+                if type(o1.exc) is not type(o2.exc):
+                    raise self.violation("CachedFcn", st["op"], "exception:%s" % type(o1.exc).__name__,
+                                         "cached system raised %s, plain twin raised %s" % (o1.describe(), o2.describe()), si)
             for k in range(len(trees)):
                 da, db = observe.observe(trees[k]), observe.observe(twins[k])
                 if da != db:
